@@ -946,7 +946,8 @@ def c14(tier, seed):
          'expect_stdout': 'testing-1\n1\nafter-1\ntesting-3\n3\nafter-3\n', 'area': 'continue:in-a-branch-followed-by-else'},
         {'script': 'for x in a b\n    while ./cnt k 4\n        if ./st t 0\n            break\n        else\n            ./st no 0\n        fi\n        ./st no2 0\n    done\n    rm -f .cnt.k\n    ./st $x 0\ndone\n', 'files': F,
          'expect_stdout': 'w:k:1\nt\na\nw:k:1\nt\nb\n', 'area': 'break:in-a-branch-followed-by-else:while-inside-for'},
-        # KNOWN FINDING (recorded, not repaired): a comment behind break / continue
+        # (repair 64cdb33) a comment behind break / continue is not part of the keyword; a `#` glued to it makes another word
+        {'script': 'for x in 1 2 3\n    if ./eq $x 2\n        continue\t#skip two\n    fi\n    ./st $x 0\ndone\nfor y in 1 2\n    ./st y$y 0\n    break   #   leave\ndone\n./st end 0\n', 'files': F, 'expect_stdout': '1\n3\ny1\nend\n', 'area': 'break-continue:followed-by-a-comment'},
         {'script': 'for x in 1 2 3\n    ./st $x 0\n    break # leave\ndone\n./st end 0\n', 'files': F, 'expect_stdout': '1\nend\n', 'area': 'break-continue:followed-by-a-comment'},
     ]
     # keywords that do not balance: a diagnostic, and nothing after the point of the imbalance runs silently cut off (with the repair fb11690: nothing runs at all)
